@@ -11,7 +11,7 @@ import re._constants as sre_c
 from .. import astutil as A
 from ..fa import FA
 from ..loader import AnalysisError
-from .fresh import flow_nodes, attr_writes, at_of, reaches_avoiding, alternatives
+from .fresh import flow_nodes, attr_writes, at_of, reaches_avoiding, alternatives, flag_conditions
 
 FR = "reference.FunctionReference"
 
@@ -531,7 +531,19 @@ def check_single_cluster_prefix(ck, R2, ini, d_cluster, d_module):
         conds = ini.conditions(at)
         if conds is None:
             raise AnalysisError("%s: too many paths to `%s`" % (ini.qual, A.short(node, 60)))
-        ok = bool(here & absent) or (bool(conds) and all(c & absent for c in conds))
+        def establishes(c):
+            """Does the conjunction say the name carries no cluster delimiter — by a literal of its own, or by a flag
+            (`needs_prefix`) that can only come out this way where such a test was passed?"""
+            if c & absent:
+                return True
+            for (t_, pol_) in c:
+                if t_.isidentifier():
+                    dnf = flag_conditions(ini, t_, pol_)
+                    if dnf and all(d_ & absent for d_ in dnf):
+                        return True
+            return False
+
+        ok = bool(here & absent) or (bool(conds) and all(establishes(c) for c in conds))
         if not ok:
             # the prefix itself may have been prepared only where the name has no delimiter yet
             ok = True
@@ -539,7 +551,7 @@ def check_single_cluster_prefix(ck, R2, ini, d_cluster, d_module):
                 if set(lits) & absent:
                     continue
                 cd = ini.conditions(a_) if a_ != at else conds
-                if cd and all(c & absent for c in cd):
+                if cd and all(establishes(c) for c in cd):
                     continue
                 ok = False
         if not ok:
@@ -1230,17 +1242,26 @@ def check(ck):
                           "`raise` under `%s`: a stored entry that mentions a function which has since been edited or removed (an external reference) "
                           "can no longer be decoded, so the entry stops being served / listings raise" % A.short(g.test, 60), fx.where(r_))
     da = FA(ck, "serialization.MementoCodec.decode_arg")
-    rz = [r_ for r_ in da.stmts(ast.Raise) if isinstance(r_.exc, ast.Call) and A.call_attr(r_.exc) == "FunctionNotFoundError"]
+    # (the refusal may sit in decode_arg itself or in a helper it was moved into: a nested function, a method of the codec)
+    rz = []
+    for fi_ in _listing_units(ck, da):
+        if fi_ is not da.fi and fi_.name.startswith(("decode_", "encode_")) and fi_.cls is da.fi.cls and fi_.parent is None:
+            continue  # the codec's other public decoders are not part of decode_arg
+        fu = da if fi_ is da.fi else FA(ck, fi_)
+        rz += [(fu, r_) for r_ in fu.stmts(ast.Raise) if isinstance(r_.exc, ast.Call) and A.call_attr(r_.exc) == "FunctionNotFoundError" and fu.nodes(r_)]
     # the refusal is reached exactly when the freshly decoded reference has no function object: every path
     # condition of the raise says `<decoded reference>.memento_fn is None`, and says nothing else about the reference
     okd = len(rz) == 1
     if okd:
-        conds = da.conditions(rz[0])
+        fu, rz0 = rz[0]
+        conds = fu.conditions(rz0)
         if conds is None:
             raise AnalysisError("decode_arg: too many paths to the FunctionNotFoundError refusal")
+        import re as _re
+        _no_fn = _re.compile(r"^([A-Za-z_][A-Za-z_0-9]*\.)+decode_fn_reference\(.*\)\.memento_fn is None$")
 
         def no_fn(lit):
-            return lit[1] and lit[0].startswith("cls.decode_fn_reference(") and lit[0].endswith(").memento_fn is None")
+            return lit[1] and bool(_no_fn.match(lit[0]))
 
         okd = bool(conds) and all(any(no_fn(l_) for l_ in c_) and not any("decode_fn_reference(" in l_[0] and not no_fn(l_) for l_ in c_) for c_ in conds)
     ck.ob(R3, da.key(None, "function-argument-decoding"), okd, "a function-valued argument is refused only when no function object (not even a stub) exists" if okd else
